@@ -208,7 +208,7 @@ def h18c(c, N=3, focus="C18"):
 
 
 HARNESSES = [
-    Harness("H18c", h18c, quick=dict(N=3), thorough=dict(N=4), pattern="P3 bounded history (schedule symbolic)", requires=["accepted", "refused", "replaced"], selfcheck=False),
+    Harness("H18c", h18c, quick=dict(N=3), thorough=dict(N=5), pattern="P3 bounded history (schedule symbolic)", requires=["accepted", "refused", "replaced"], selfcheck=False),
     Harness("H18b-sim", h18b_sim, quick=dict(n=2), pattern="P5 fault schedule as a variable", requires=["handled"]),
     Harness("H18b-live", h18b_live, quick=dict(n=2), pattern="P5 fault schedule as a variable", requires=["handled"], max_paths=(300000, 3000000)),
     Harness("H18a", h18a, quick=dict(steps=2), thorough=dict(steps=3), pattern="P2 inductive step (+ short history)", clock_modules=("flumine.controls.clientcontrols",),
